@@ -203,3 +203,59 @@ def check_abs_of_extremum(ctx, fi, rule='R-IDIOM/abs-of-extremum'):
                  'are not seen (the largest absolute difference is '
                  '`abs(a - b).max()`)')
     return n
+
+
+_POSITION_CALLS = {'index', 'find', 'rfind', 'argmax', 'argmin',
+                   'searchsorted', 'bisect_left', 'bisect_right', 'bisect'}
+
+
+def check_truthy_position(ctx, fi, rule='R-IDIOM/truthy-position'):
+    """`if pos:` / `pos and ...` where pos is a position (the result of
+    `.index(x)`, `.find(x)`, `argmax`, `searchsorted`, the counter of
+    `enumerate`): position 0 is falsy, so the first element is treated as
+    "not found".  A position is tested with `is not None`, `>= 0` or
+    `!= -1`."""
+    from ..core.cfg import cfg_of
+    from ..core.defuse import rd_of
+    cfg = cfg_of(fi)
+    rd = rd_of(fi)
+
+    def is_position(name_node, nid):
+        ds = rd.reaching(name_node.id, nid)
+        if not ds:
+            return False
+        for d in ds:
+            v = getattr(d, 'value', None)
+            if d.kind != 'assign' or v is None or d.path:
+                return False
+            if not (isinstance(v, ast.Call) and isinstance(
+                    v.func, ast.Attribute)
+                    and v.func.attr in _POSITION_CALLS):
+                return False
+        return True
+
+    n = 0
+    for node in cfg.nodes:
+        if node.id not in rd.live or node.kind not in ('if', 'while'):
+            continue
+        test = node.ast.test
+        cands = []
+
+        def collect(t):
+            if isinstance(t, ast.Name):
+                cands.append(t)
+            elif isinstance(t, ast.BoolOp):
+                for v in t.values:
+                    collect(v)
+            elif isinstance(t, ast.UnaryOp) and isinstance(t.op, ast.Not):
+                collect(t.operand)
+        collect(test)
+        for c in cands:
+            if is_position(c, node.id):
+                n += 1
+                ctx.touch(fi)
+                ctx.fail(rule, f'{fi.qual}:{n - 1}', fi.loc(node.ast),
+                         f'`{unparse(test)[:60]}` tests the position '
+                         f'`{c.id}` for truth: position 0 (the first '
+                         'element) counts as "not found"')
+    return n
